@@ -657,3 +657,95 @@ package transaction
 //@   covers delivered: result.Code == 0 && deliver && tx.GasCoin == 0
 //@   loop 0 invariant grows: forall c types.CoinID, a types.Address :: bal(accs, c, a) >= old(bal(accs, c, a))
 //@   loop 0 invariant frame: nonce == old(nonce) && otherState == old(otherState) && rewardPool.val == old(rewardPool.val) && allof(candidates.Candidate.Status) == old(allof(candidates.Candidate.Status))
+
+//@ # ---------------------------------------------------------------- C02: supply and reserve limits
+//@ # what the coin's accessors return in this state (abstract: the record is read through the interface)
+//@ ghost coinVol(c CalculateCoin) int
+//@ ghost coinMax(c CalculateCoin) int
+//@ ghost coinRes(c CalculateCoin) int
+//@ func iface CalculateCoin.Volume
+//@   ensures result != nil && result.val == coinVol(recv)
+//@   modifies nothing
+//@ func iface CalculateCoin.MaxSupply
+//@   ensures result != nil && result.val == coinMax(recv)
+//@   modifies nothing
+//@ func iface CalculateCoin.Reserve
+//@   ensures result != nil && result.val == coinRes(recv)
+//@   modifies nothing
+//@ # no error iff the volume plus the delta stays within the maximum supply
+//@ func CheckForCoinSupplyOverflow
+//@   serves C02
+//@   # (inlined at call sites so that the coin's accessors are dispatched on the caller's knowledge of the coin)
+//@   inline
+//@   requires delta != nil
+//@   ensures exact: (result == nil) <==> (coinVol(coin) + delta.val <= coinMax(coin))
+//@   ensures failcode: result != nil ==> result.Code != 0
+//@   modifies nothing
+//@ # no error iff the reserve minus the delta stays at or above the minimum reserve (10 000 base coins)
+//@ func CheckReserveUnderflow
+//@   serves C02
+//@   requires delta != nil
+//@   ensures exact: (result == nil) <==> (coinRes(coin) - delta.val >= minCoinReserve.val)
+//@   ensures minimum: minCoinReserve.val == 10000000000000000000000
+//@   ensures failcode: result != nil ==> result.Code != 0
+//@   modifies nothing
+
+//@ # the balance test of a multisend only reads: the values of the items and the commission are left as they are
+//@ # (the per-coin totals are built in fresh numbers)
+//@ func checkBalances
+//@   serves C02 C03
+//@   requires context != nil && context.state != nil && context.state.Coins != nil && context.state.Accounts != nil && commission != nil && allocated(commission)
+//@   requires wf: forall i int :: 0 <= i && i < len(items) ==> items[i].Value != nil && allocated(items[i].Value)
+//@   ensures failcode: result != nil ==> result.Code != 0
+//@   ensures itemskept: forall i int :: 0 <= i && i < len(items) ==> items[i].Value.val == old(items[i].Value.val)
+//@   ensures commissionkept: commission.val == old(commission.val)
+//@   local total map[types.CoinID]*big.Int
+//@   loop 0 invariant idx: -1 <= rangeindex && (rangeindex < len(items) || (rangeindex == -1 && len(items) == 0))
+//@   loop 0 invariant ownnumbers: forall k types.CoinID :: (k in total) ==> total[k] != nil && fresh(total[k])
+//@   loop 0 invariant itemskept: forall i int :: 0 <= i && i < len(items) ==> items[i].Value.val == old(items[i].Value.val)
+//@   loop 0 invariant commissionkept: commission.val == old(commission.val)
+
+//@ # the stand-in coin used when the fee is taken from the same coin first: its accessors return its own fields, which
+//@ # defines the views for this implementation
+//@ func (DummyCoin).Volume
+//@   ensures own: result == m.volume
+//@   ensures [assumed] view: m.volume != nil ==> result.val == coinVol(m)
+//@   modifies nothing
+//@ func (DummyCoin).MaxSupply
+//@   ensures own: result == m.maxSupply
+//@   ensures [assumed] view: m.maxSupply != nil ==> result.val == coinMax(m)
+//@   modifies nothing
+//@ func (DummyCoin).Reserve
+//@   ensures own: result == m.reserve
+//@   ensures [assumed] view: m.reserve != nil ==> result.val == coinRes(m)
+//@   modifies nothing
+
+//@ # ---------------------------------------------------------------- buying a bancor coin (C02: minting stays within the maximum supply)
+//@ func CalculateSaleAmountAndCheck
+//@   trusted
+//@   ensures result1 != nil ==> result1.Code != 0
+//@   ensures result1 == nil ==> result0 != nil && fresh(result0) && result0.val >= 0
+//@   modifies nothing
+//@ func (BuyCoinData).basicCheck
+//@   ensures failcode: result != nil ==> result.Code != 0
+//@   ensures checked: result == nil ==> data.ValueToBuy != nil && data.CoinToSell != data.CoinToBuy && (data.CoinToBuy == 0 || coinExists(context.state.Coins, data.CoinToBuy)) && (data.CoinToSell == 0 || coinExists(context.state.Coins, data.CoinToSell))
+//@   modifies coinsCache
+//@ # an accepted purchase of a custom coin mints exactly ValueToBuy of it, and only if that keeps the volume within the
+//@ # coin's maximum supply (the precondition of Coins.AddVolume, proved at the call site)
+//@ func (BuyCoinData).Run
+//@   serves C02 C03 C04 C05 C27
+//@   implements iface Data.Run
+//@   assumes wf: data.ValueToBuy != nil ==> data.ValueToBuy.val >= 0 && data.ValueToBuy != rewardPool && data.MaximumValueToSell != nil
+//@   assumes typed: tx.Type == TypeBuyCoin
+//@   assumespre CalculatePurchaseAmount: state invariant, not provable locally: a bancor coin has positive volume and reserve and a ratio between 10 and 100
+//@   let snd = senderOf(tx)
+//@   ensures [C02] bought: result.Code == 0 && deliver && data.CoinToBuy != 0 && tx.GasCoin == 0 && data.CoinToSell == 0 ==> coinVolume(st.Coins, data.CoinToBuy) == old(coinVolume(st.Coins, data.CoinToBuy)) + data.ValueToBuy.val && coinVolume(st.Coins, data.CoinToBuy) <= coinMaxOf(st.Coins, data.CoinToBuy)
+//@   covers delivered: result.Code == 0 && deliver && tx.GasCoin == 0 && data.CoinToBuy != 0 && data.CoinToSell == 0
+//@   loop 0 invariant grows: forall c types.CoinID, a types.Address :: bal(accs, c, a) >= old(bal(accs, c, a))
+//@   loop 0 invariant frame: nonce == old(nonce) && otherState == old(otherState) && rewardPool.val == old(rewardPool.val) && coinVolume == old(coinVolume) && coinReserve == old(coinReserve)
+//@ ghost coinCrr(c CalculateCoin) int
+//@ func iface CalculateCoin.Crr
+//@   ensures result == coinCrr(recv)
+//@   modifies nothing
+//@ func iface CalculateCoin.BaseOrHasReserve
+//@   modifies nothing
